@@ -233,6 +233,19 @@ func discharge(o *Obligation, timeout int, cross bool) SolverResult {
 			return last
 		}
 	}
+	// every rung ran out of time (not: found a counter-model): the machine may simply be busy. The
+	// rung that proved this obligation when the plan was recorded gets one more attempt with three
+	// times the budget before the obligation is given up.
+	if pl, ok := planFor(o.Name); ok && last.Status != "sat" {
+		r := solve(variantQuery(o, pl.K, pl.Mode), 3*timeout, false, false)
+		if r.Status == "unsat" {
+			r.Solver += variantLabel(pl.K, pl.Mode) + " (planned, second attempt)"
+			r.K, r.Mode, r.Ladder = pl.K, pl.Mode, true
+			r.Seconds += spent
+			return r
+		}
+		spent += r.Seconds
+	}
 	last.Seconds = spent
 	return last
 }
